@@ -25,7 +25,7 @@ ASSUMPTIONS = [
 
 def budgets(tier):
     if tier == "quick":
-        return {"examples": 600, "max_s": 80, "shrink_s": 20, "shards": 1}
+        return {"examples": 450, "max_s": 80, "shrink_s": 20, "shards": 1}
     return {"examples": 1200, "max_s": 700, "shrink_s": 90, "shards": 16}
 
 
@@ -115,6 +115,8 @@ def check_case(case):
             for ci, h in enumerate(holders):
                 p = tmp.fresh("thetas_%d.h5" % ci)
                 paths.append(p)
+                if ci > 0:
+                    holders[ci - 1].save_h5(p)  # the path already holds another chain: saving replaces it
                 h.save_h5(p)
                 files.append(p)
                 l = ThetaHolder.load_h5(p)
